@@ -36,7 +36,12 @@ CONFIGS = {
     "gif+lb": [GIF, LB], "gif+tpp": [GIF, TPP], "lb+tpp": [LB, TPP],
     "all": [GIF, LB, TPP],
     "all+arb": [GIF, LB, TPP, "arbitrary"],
+    # the crate with every logging statement compiled in; the harness installs a logger that formats
+    # every record (the arguments of the logging statements are code of the decode path too)
+    "all+log": [GIF, LB, TPP, "log-all"],
+    "none+log": ["log-all"],
 }
+NOT_MODELLED = {"arbitrary", "log-all"}      # features that do not change the modelled behaviour
 ALL8 = ["none", "gif", "lb", "tpp", "gif+lb", "gif+tpp", "lb+tpp", "all"]
 
 
@@ -97,7 +102,7 @@ def build_wire(cfg):
     """Build only the thin wire-level harness (survives API changes of the public structs)."""
     if cfg in _built_wire:
         return _built_wire[cfg]
-    feats = [f for f in CONFIGS[cfg] if f != "arbitrary"]
+    feats = [f for f in CONFIGS[cfg] if f not in NOT_MODELLED]
     tdir = target_dir(cfg)
     env = dict(os.environ, CARGO_NET_OFFLINE="true", CARGO_TARGET_DIR=tdir)
     env.pop("RUSTFLAGS", None)
@@ -127,7 +132,7 @@ def replay_wire(cfg, vecpath, run, props=None):
     r = sh([binp, "replay", inpath, outpath])
     recs, summary = [], None
     if os.path.exists(outpath):
-        for line in open(outpath):
+        for line in open(outpath, errors="replace"):
             try:
                 o = json.loads(line)
             except ValueError:
@@ -161,7 +166,7 @@ def _scratch_manifest(repo):
 # TLC
 # ----------------------------------------------------------------------------------------------
 def fset(cfg):
-    feats = [f for f in CONFIGS[cfg] if f != "arbitrary"]
+    feats = [f for f in CONFIGS[cfg] if f not in NOT_MODELLED]
     return "{" + ", ".join('"%s"' % f for f in feats) + "}"
 
 
@@ -308,7 +313,7 @@ def replay(cfg, vecpath, run, full=False, props=None):
     r = sh([binp, "replay", inpath, outpath] + (["--full"] if full else []))
     recs, summary = [], None
     if os.path.exists(outpath):
-        for line in open(outpath):
+        for line in open(outpath, errors="replace"):
             try:
                 o = json.loads(line)
             except ValueError:
@@ -327,8 +332,9 @@ def replay(cfg, vecpath, run, full=False, props=None):
     if summary.get("toolerr"):
         bad = [x for x in recs if x.get("outcome") == "toolerr"][:3]
         raise ToolError("replay tool errors (%d): %s" % (summary["toolerr"], json.dumps(bad)[:2000]))
-    log("replay %s[%s]: n=%s matched=%s mismatched=%s panics=%s (%.1fs)" % (
+    log("replay %s[%s]: n=%s matched=%s mismatched=%s panics=%s%s (%.1fs)" % (
         run, cfg, summary.get("n"), summary.get("matched"), summary.get("mismatched"), summary.get("panics"),
+        (" log records formatted=%s" % summary.get("log_records")) if "log-all" in CONFIGS.get(cfg, []) else "",
         time.time() - t0))
     return summary, recs
 
